@@ -583,6 +583,41 @@ Theorem C02_text_every_card_locus_sense_linked :
 Proof. exact text_every_card_linked. Qed.
 Print Assumptions C02_text_every_card_locus_sense_linked.
 
+(* the same for EVERY mnemonic of the property except the tori: also the
+   nine-entry P (under p3_guard) and the point-defined X / Y / Z in all forms *)
+Theorem C02_text_every_card_all_mnemonics_linked :
+  forall (txt bc : string) (name : N) (tr ty : string) (prm : list R) (mn : mnem)
+         (ms : msurf (T:=R)) (n : Z) (o : S4.R3) (b : V4.M3 R) (trs : list (Z * list R)),
+  parse_surface_card RS txt = Ok (bc, name, tr, ty, prm) ->
+  tr_number tr = Some n -> M4.lookup n trs = M4.Ok (C4.tr12 o b) -> S4.rows_orthonormal b ->
+  classify ty = TyMnem mn -> linkable_all mn ->
+  mcnp_surface RS mn prm = Some ms -> admissible mn prm ->
+  exists coll, convert_text_tr trs txt = M4.Ok coll /\
+    forall p',
+      (S4.coll_neg coll (S4.to_main o b p') <->
+         m_f ms (pt3 p') < 0 /\ match m_sheet ms with None => True | Some g => 0 < g (pt3 p') end) /\
+      (S4.coll_pos coll (S4.to_main o b p') <->
+         0 < m_f ms (pt3 p') \/ match m_sheet ms with None => False | Some g => g (pt3 p') < 0 end).
+Proof. exact text_every_card_linked_all. Qed.
+Print Assumptions C02_text_every_card_all_mnemonics_linked.
+
+(* tori with a TR number, through C04's torus law: when the moved axis is
+   exactly a coordinate axis or clearly not one (C04's torus_axis_ok), ONE torus
+   is written and its equation at the moved point is the card's at p' *)
+Theorem C02_torus_tr_linked : forall (x0 y0 z0 A B C : R) (o : S4.R3) (b : V4.M3 R),
+  S4.rows_orthonormal b ->
+  (O4.torus_axis_ok (F4.tvec b (V4.mkV 1 0 0)) ->
+     exists t, card_tr_convert (C4.tr12 o b) M_TX [x0; y0; z0; A; B; C] = M4.Ok [(t, 1%Z)] /\
+       forall p', S4.t4val t (S4.to_main o b p') = fM_tx RS x0 y0 z0 A B C (pt3 p')) /\
+  (O4.torus_axis_ok (F4.tvec b (V4.mkV 0 1 0)) ->
+     exists t, card_tr_convert (C4.tr12 o b) M_TY [x0; y0; z0; A; B; C] = M4.Ok [(t, 1%Z)] /\
+       forall p', S4.t4val t (S4.to_main o b p') = fM_ty RS x0 y0 z0 A B C (pt3 p')) /\
+  (O4.torus_axis_ok (F4.tvec b (V4.mkV 0 0 1)) ->
+     exists t, card_tr_convert (C4.tr12 o b) M_TZ [x0; y0; z0; A; B; C] = M4.Ok [(t, 1%Z)] /\
+       forall p', S4.t4val t (S4.to_main o b p') = fM_tz RS x0 y0 z0 A B C (pt3 p')).
+Proof. exact torus_tr_linked. Qed.
+Print Assumptions C02_torus_tr_linked.
+
 (* the frame form that C04 starts from has the sense of the card (the bridge
    used above; link_wf = what C04's laws ask of it) *)
 Theorem C02_frame_form_sense_linked : forall (mn : mnem) (prm : list R) (ms : msurf (T:=R)),
